@@ -130,8 +130,10 @@ func hmGetAllIndexes(hm *HashMap) (r.Element, error) {
 
 func hmGetAllValues(hm *HashMap) (r.Element, error) {
 	var vals []r.Element
+	// a new list of copies (changing one of its items in place does not write into the
+	// dictionary)
 	for _, keyName := range hm.keyOrder {
-		vals = append(vals, hm.value[keyName])
+		vals = append(vals, DuplicateValue(hm.value[keyName]))
 	}
 	return NewArray(vals), nil
 }
